@@ -57,7 +57,7 @@ class Tokenizer:
             if not self._path:
                 # remember every physical line seen (blank and comment lines, and all the
                 # lines of a multi-line token) so that error reports can quote any span
-                for i, line in enumerate(tok.line.splitlines(keepends=True) if tok.line else ()):
+                for i, line in enumerate(tok.line.splitlines(keepends=True) or [""]):
                     self._lines.setdefault(tok.start[0] + i, line)
             if self.is_blank(tok):
                 continue
